@@ -26,6 +26,9 @@ def build_fixture(kind: str, d: Path):
     mc["d"] = 1
     mc["g/e"] = [1, 2, 3]
     mc["g/h/f"] = 2.5
+    # siblings whose names extend a group's name (outside the model's tree: never navigated to, only probed by absolute path)
+    mc["gx"] = 5
+    mc["g/hx"] = 6
     for p in ("/", "g", "g/h", "d", "g/e", "g/h/f"):
         mc[p].attrs["ak"] = 7
     for p in ("g", "g/e", "g/h/f"):
@@ -117,6 +120,10 @@ def attempts(w, is_group: bool, CL, lroot=None) -> Dict[str, List[Any]]:
     up = [("file", lambda: w.file)]
     # an absolute path is an upward operation where it leaves the local subtree; below a local root "/" nothing does
     # (there the pinned code refuses absolute paths as well, but accepting them would not break the property)
+    if is_group and lroot not in (None, []):
+        sib = "/" + "/".join(lroot) + "x"       # a sibling of the local root whose name extends the local root's name
+        up += [("__getitem__ absolute sibling-prefix", lambda: w[sib]), ("get absolute sibling-prefix", lambda: w.get(sib)),
+               ("__contains__ absolute sibling-prefix", lambda: sib in w)]
     if is_group and lroot != []:
         up += [("__getitem__ absolute", lambda: w["/d"]), ("get absolute", lambda: w.get("/d")),
                ("__contains__ absolute", lambda: "/d" in w)]
